@@ -74,10 +74,12 @@ pub fn build_template(t: &str, src: &Path, dst: &Path, names: &[&str]) {
                 let other: Vec<u8> = sbytes.iter().map(|b| b ^ 0x20).collect();
                 put_file(dst, &rel, &other, smt - 1000, 500_000_000);
             }
+            // different size but the SAME mtime: must be transferred and still carry the source's mtime
+            'Y' => put_file(dst, &rel, b"other size, same mtime", smt, 500_000_000),
             _ => {}
         }
     };
-    let states = ['A', 'S', 'Z', 'M'];
+    let states = ['A', 'S', 'Z', 'M', 'Y'];
     match t {
         "T1" | "T2" | "T4" => {
             let prefix = match t {
@@ -165,6 +167,10 @@ pub struct CliOut {
 }
 
 pub fn run_sync(env: &RunEnv, c: &Cfg, extra: &[&str], gate: Option<&Path>) -> CliOut {
+    run_sync_env(env, c, extra, gate, &[])
+}
+
+pub fn run_sync_env(env: &RunEnv, c: &Cfg, extra: &[&str], gate: Option<&Path>, more_env: &[(String, String)]) -> CliOut {
     let mut cmd = std::process::Command::new(cli_bin());
     cmd.arg("sync").arg("-r").arg("--jobs").arg(c.jobs.to_string());
     if c.delete {
@@ -193,6 +199,9 @@ pub fn run_sync(env: &RunEnv, c: &Cfg, extra: &[&str], gate: Option<&Path>) -> C
         .current_dir(env.sc.path("cwd"));
     if let Some(g) = gate {
         cmd.env("VSTANDIN_GATE", g);
+    }
+    for (k, v) in more_env {
+        cmd.env(k, v);
     }
     let (code, out, err) = output_with_timeout(&mut cmd, 90);
     CliOut { code, stdout: String::from_utf8_lossy(&out).into_owned(), stderr: String::from_utf8_lossy(&err).into_owned() }
@@ -223,7 +232,7 @@ pub fn prepare(c: &Cfg, names: &[&str], tag: &str) -> Prepared {
     // sentinels in the remote home / local cwd named like fragments of paths with a newline in them
     for n in names {
         if let Some((_, tail)) = n.split_once('\n') {
-            for suf in [".stale", "-A", "-S", "-Z", "-M"] {
+            for suf in [".stale", "-A", "-S", "-Z", "-M", "-Y"] {
                 let _ = std::fs::write(env.rhome().join(format!("{tail}{suf}")), b"sentinel in the remote home");
                 let _ = std::fs::write(env.sc.path("cwd").join(format!("{tail}{suf}")), b"sentinel in cwd");
             }
@@ -445,6 +454,25 @@ pub fn run_c04(ctx: &Ctx) -> ! {
             violations.push(Violation::new("silent_failure", format!("[{}] non-zero exit without a message", cfg_name(&c)), json!({"config": cfg_name(&c)})));
         } else if d1.get("untouched") != p.dst0.0.get("untouched") || d1.get("clash/inside") != p.dst0.0.get("clash/inside") || snap(&p.env.src()) != p.src0 {
             violations.push(Violation::new("failed_run_touched_outside_plan", format!("[{}] a failing run touched files outside the plan", cfg_name(&c)), json!({"config": cfg_name(&c)})));
+        }
+    }
+    // one transfer's ssh process dies mid-stream (killed by a signal, or a non-zero exit): the run must
+    // report a failure (or, if it exits 0, everything must be right) and touch nothing outside the plan
+    for dir in ["push", "pull"] {
+        for how in ["KILL", "TERM", "exit255", "exit1"] {
+            for nb in [0usize, 4] {
+                let c = Cfg { dir, delete: true, exclude: "", jobs: 2, verbose: false, template: "T5" };
+                let p = prepare(&c, &names_for(&c), "c04f");
+                let mut cmd_env: Vec<(String, String)> = Vec::new();
+                cmd_env.push(("VSTANDIN_FAULT".into(), format!("{how}:{nb}:q\\'uote-Z")));
+                let out = run_sync_env(&p.env, &c, &[], None, &cmd_env);
+                evals.fetch_add(1, Ordering::Relaxed);
+                if let Some((k, m, path)) = c04_oracle(&c, &p, &out) {
+                    violations.push(Violation::new(&k, format!("[{} with the ssh of one transfer dying ({how} after {nb} bytes)] exit {:?}: {m}", cfg_name(&c), out.code), json!({"config": cfg_name(&c), "path": path, "fault": how})).with("direction", json!(dir)).with("fault", json!(how)));
+                } else if out.code == Some(0) {
+                    violations.push(Violation::new("fault_not_reported", format!("[{} with the ssh of one transfer dying ({how} after {nb} bytes)] exit 0 although one transfer cannot have completed", cfg_name(&c)), json!({"config": cfg_name(&c), "fault": how})).with("direction", json!(dir)).with("fault", json!(how)));
+                }
+            }
         }
     }
     // completion orders of K parallel transfers over SSH (gate in the stand-in)
